@@ -100,6 +100,10 @@ FenceVerdict(n, returned) ==
      THEN Chk(R = {}, "C17", "InBoundsNeverReported", <<n.kind, n.sz, n.fpre, n.fpost, cfg.fence>>)
      ELSE Chk(R # {}, "C17", "OverflowReportedAtFirstDirtyByte",
               <<"not reported", n.kind, n.sz, n.al, DirtyPre(n), DirtyPost(n), returned>>)
+          \* the first report names the first corrupted byte of the node: the lowest dirty byte of the fence in front of
+          \* it if that fence is dirty at all
+          \cup Chk(R = {} \/ st.pend[MinOf(R)].woff = (IF DirtyPre(n) # {} THEN MinOf(DirtyPre(n)) ELSE MinOf(DirtyPost(n))),
+                   "C17", "OverflowReportedAtFirstDirtyByte", <<"first report", n.kind, n.sz, DirtyPre(n), DirtyPost(n), st.pend[MinOf(R)].woff>>)
           \cup Chk(R = {} \/ \A i \in R : RightOffset(n, st.pend[i].woff), "C17", "OverflowReportedAtFirstDirtyByte",
                    <<"wrong offset", n.kind, n.sz, n.al, DirtyPre(n), DirtyPost(n), {st.pend[i].woff : i \in R}>>)
 
